@@ -35,10 +35,15 @@ def gen_cases(rng, ctx):
     thorough = ctx["tier"] == "thorough" or ctx.get("widened")
     cases = []
 
-    def add(cfg, kind, path, hs=(), body=0, expect=None, name=""):
-        toks = [cfg, [kind], list(path.encode()), flat(hs)] + ([[body]] if body else [[]])
-        l = line("c18_session", toks)
-        cases.append(Case(l, l, kind=name, nontrivial=True, meta={"cfg": cfg, "path": path, "expect": expect, "hs": list(hs), "body": body}))
+    def add(cfg, kind, path, hs=(), body=0, expect=None, name="", front=0):
+        # front: 0 = the door after the TLS handshake; 1 = the real listener over TLS; 3 = the real listener over QUIC + HTTP/3
+        if front == 3:
+            cfg = [cfg[0], 1] + cfg[2:]
+        rest = [[kind], list(path.encode()), flat(hs)] + ([[body]] if body else [[]])
+        lm = line("c18_session", [cfg] + rest)
+        li = lm if front == 0 else line("c18_session", [(cfg + [0, 0, 0])[:9] + [front]] + rest)
+        cases.append(Case(li, lm, kind=name + ("" if front == 0 else "-listener" if front == 1 else "-quic"), nontrivial=True,
+                          meta={"cfg": cfg, "path": path, "expect": expect, "hs": list(hs), "body": body, "front": front}))
 
     MIB = 1 << 20
     for http2 in (0, 1):
@@ -71,7 +76,24 @@ def gen_cases(rng, ctx):
             if thorough and auth == 0:
                 add(base(2), 6, "/100mb.bin", expect=(200, 100 * MIB), name="speedtest:download-100")
                 add(base(2), 7, "/upload.html", hs=[("content-length", str(120 * MIB))], body=120 * MIB, expect=(200, 0), name="speedtest:upload-120MiB")
-        # reverse proxy: HTTP/1.1 only on TCP
+    # the same channels through the endpoint's real listener: the SNI (ping.localhost, speed.localhost, rp.localhost) selects the
+    # channel; HTTP/1.1 and HTTP/2 over TLS, HTTP/3 over QUIC
+    for front, http2 in ((1, 0), (1, 1), (3, 1)):
+        b9 = lambda ch, private=0, rp=1, st=1, delay=0: [ch, http2, private, rp, st, 0, delay]
+        add(b9(1), 6, "/", expect=(200, 0), name="ping:host", front=front)
+        add(b9(0), 6, "/", hs=[("x-ping", "1")], expect=(200, 0), name="ping:x-ping-marker", front=front)
+        add(b9(2), 6, "/1mb.bin", expect=(200, MIB), name="speedtest:download-1", front=front)
+        add(b9(2), 6, "/3mb.bin", expect=(200, 3 * MIB), name="speedtest:download-3", front=front)
+        add(b9(2), 6, "/0mb.bin", expect=(400, 0), name="speedtest:download-0", front=front)
+        add(b9(2, delay=3), 6, "/2mb.bin", expect=(200, 2 * MIB), name="speedtest:download-slow-reader", front=front)
+        add(b9(0), 6, "/speed/1mb.bin", expect=(200, MIB), name="speedtest:on-tunnel-host", front=front)
+        add(b9(2), 7, "/upload.html", hs=[("content-length", "70000")], body=70000, expect=(200, 0), name="speedtest:upload-70000", front=front)
+        add(b9(2), 7, "/upload.html", hs=[("content-length", str(120 * MIB + 1))], body=0, expect=(400, 0), name="speedtest:upload-too-large", front=front)
+        if thorough:
+            add(b9(2), 6, "/20mb.bin", expect=(200, 20 * MIB), name="speedtest:download-20", front=front)
+        if not (front == 1 and http2):
+            add([3, http2, 0, 1, 0, 0, 0], 6, "/x", hs=[("upgrade", "test")] if front == 1 else [], expect="rp" if front == 1 else "rp3", name="rp:host", front=front)
+    # reverse proxy: HTTP/1.1 only on TCP
     for auth in (0, 1):
         for private in (0, 1):
             add([3, 0, private, 1, 0, auth, 0], 6, "/x", hs=[("upgrade", "test")], expect="rp", name="rp:host-private%d" % private)
@@ -97,10 +119,22 @@ def judge(case, impl, model, spec, ctx):
     origin = bytes(untok(t[2]))
     accepts, relayed = untok(t[3])
     cfg = case.meta["cfg"]
-    proto = "HTTP/2" if cfg[1] else "HTTP/1.1"
+    front = case.meta.get("front", 0)
+    proto = "HTTP/3 over the real QUIC listener" if front == 3 else ("HTTP/2" if cfg[1] else "HTTP/1.1") + (" over the real TLS listener" if front == 1 else "")
+    if impl == "996":
+        ctx.setdefault("skipped_env", []).append(case.kind)
+        return []
     what = "%s %s %s (authenticator %s)" % (case.kind, proto, case.meta["path"], "configured" if cfg[5] else "none")
     exp = case.meta["expect"]
     out = []
+    if exp == "rp3":
+        lines = origin.split(b"\r\n")
+        hs = sorted(l.lower() for l in lines[1:] if l)
+        if accepts != 1 or status != 101:
+            out.append(("violation", "%s: the reverse-proxy request did not reach the configured origin (origin connections %d, status %d)" % (what, accepts, status)))
+        elif not lines[0].endswith(b" HTTP/1.1") or b"x-original-protocol: http3" not in hs or lines[0].split(b" ")[1].decode() != case.meta["path"]:
+            out.append(("violation", "%s: the origin received %r: not the HTTP/1.1 translation of the request carrying X-Original-Protocol: HTTP3" % (what, origin[:160])))
+        return out
     if exp == "rp":
         if accepts != 1 or status != 101 or relayed != 1:
             out.append(("violation", "%s: the reverse-proxy request did not reach the configured origin and come back (origin connections %d, status %d, relay intact %d), "
